@@ -4,7 +4,10 @@ import Driver.Proto
 /-! Protocol handler for C07 (SPEA2, NSGA-III, reference points).
 
 ops (tokens after `C07`):
-* `spea2 <wvalues;…> <k> <fits,…|-> <D;…>`      → positions returned by `selSPEA2`
+* `spea2 <wvalues;…> <k> <fits,…|-> <D;…>`      → positions returned by `selSPEA2V` (an entry of `D` is a
+  rational or `inf` = the float sum of squares overflowed)
+* `spea2e <weights,…> <wvalues;…> <k> <pivot draws,…|->` → positions returned by `selSPEA2E` (strengths, raw
+  fitness, squared distances, quick-select and densities computed by the model, exact rationals) | `none`
 * `qsel <array,…> <begin> <end> <i> <draws,…|->` → `_randomizedSelect` value or `none`
 * `niching <L> <k> <nref> <niches> <dist f:…> <counts0> <tape|none>` → `<selected> <counts>` | `err:…`
 * `nsga3 <fronts;…> <k> <niches> <dist f:…> <nref> <tape|none>`      → chosen ids | `err:…`
@@ -20,10 +23,20 @@ ops (tokens after `C07`):
 * `nassocd …`                                    → `<dists>` only
 * `nsga3f <fronts;…> <k> <fits by id;…> <refs;…> <membest|none> <memworst|none> <memext|none> <sing|x,…> <tape|none>`
                                                  → chosen ids: normalisation → association → niching
+* `nsga3e <std|log> <wvalues by id;… (exact rationals)> <k> <refs;…> <membest|none> <memworst|none> <memext|none>
+  <sing|x,…> <tape|none>`                        → chosen ids: the model's own non-dominated sort (C04 model) →
+  `-wvalues` → normalisation → association → niching
 * `icpt <extreme;…> <best> <worst> <frontworst> <sing|x,…>` → `find_intercepts`
 -/
 namespace DriverC07
 open Proto
+
+/-- a computed squared distance: a non-negative rational, or `inf` (the float sum overflowed) -/
+def parseDVal (s : String) : Option (Spea2.DVal Rat) :=
+  if s = "inf" then some Spea2.DVal.inf
+  else match parseRat s with
+    | some q => if q < 0 then none else some (Spea2.DVal.fin q)
+    | none => none
 
 def parseTape (s : String) : Option (List (List Nat)) :=
   if s = "none" then some [] else (s.splitOn ";").mapM (parseList parseNat)
@@ -91,6 +104,18 @@ def handle : List String → String
       | .error e => showErr e
       | .ok ch => showList toString ch
     | _, _, _, _, _ => "bad-op"
+  | ["nsga3e", nds, wvs, ks, rs, bs, ws, es, ss, ts] =>
+    match parseList2 parseRat wvs, parseNat ks, parseList2 parseFloat rs, parseOptList bs, parseOptList ws,
+        parseOptList2 es, parseSolve ss, parseTape ts with
+    | some wv, some k, some r, some mb, some mw, some me, some sol, some t =>
+      let m := (wv.headD []).length
+      if !(nds = "std" || nds = "log") || wv.isEmpty || m = 0 || (nds = "log" && m < 2) || !(rect wv m)
+          || r.isEmpty || !(rect r m) || !(mb.all (·.length == m)) || !(mw.all (·.length == m))
+          || !(me.all (fun e => rect e m)) || !(sol.all (·.length == m)) then "bad-op" else
+      match Nsga3.selNSGA3E ratToFloat (fun _ _ => sol) (nds = "log") wv k r mb mw me t with
+      | .error e => showErr e
+      | .ok ch => showList toString ch
+    | _, _, _, _, _, _, _, _ => "bad-op"
   | ["norm", fs, bs, ws, es, ss] =>
     match parseNorm fs bs ws es ss with
     | some a =>
@@ -103,16 +128,27 @@ def handle : List String → String
       let w ← parseList2 parseRat ws
       let k ← parseNat ks
       let f ← parseList parseRat fs
-      let d ← parseList2 parseRat ds
+      let d ← parseList2 parseDVal ds
       pure (w, k, f, d)) with
     | some (w, k, f, d) =>
       let n := w.length
-      if n = 0 || !(rect d n) || d.length != n || !(f.isEmpty || f.length == n)
-          || d.any (fun r => r.any (fun x => decide (x < 0))) then "bad-op"
+      if n = 0 || !(rect d n) || d.length != n || !(f.isEmpty || f.length == n) then "bad-op"
       else
         showList toString
-          (Spea2.selSPEA2 (Spea2.domW w) n k (fun i => f.getD i 0)
-            (fun i j => (d.getD i []).getD j 0))
+          (Spea2.selSPEA2V (Spea2.domW w) n k (fun i => f.getD i 0)
+            (fun i j => (d.getD i []).getD j Spea2.DVal.inf))
+    | none => "bad-op"
+  | ["spea2e", wts, ws, ks, ts] =>
+    match (do
+      let wt ← parseList parseRat wts
+      let w ← parseList2 parseRat ws
+      let k ← parseNat ks
+      let t ← parseList parseNat ts
+      pure (wt, w, k, t)) with
+    | some (wt, w, k, t) =>
+      let m := wt.length
+      if w.isEmpty || m = 0 || !(rect w m) || wt.any (fun x => decide (x = 0)) then "bad-op"
+      else showOpt (showList toString) (Spea2.selSPEA2E (fun n => (n : Rat)) wt w k t)
     | none => "bad-op"
   | ["qsel", as, bs, es, is, ts] =>
     match (do
